@@ -460,6 +460,10 @@ def main():
             ror("rollaxis(t3,%r)" % (ax,), lambda z, ax=ax: anp.rollaxis(z, ax), t3)
             ror("squeeze-expand(t3,%r)" % (ax,), lambda z, ax=ax: anp.squeeze(anp.expand_dims(z, ax), ax), t3)
             ror("cumsum-rev(t3,%r)" % (ax,), lambda z, ax=ax: anp.cumsum(z[::-1], axis=ax), t3)
+    # rollaxis with every (axis, start) pair, negative ones included (refused today; if accepted, the inverse roll has to be right)
+    for ax in (-3, -2, -1, 0, 1, 2):
+        for st in (-3, -2, -1, 1, 2, 3):
+            ror("rollaxis(t3,%r,%r)" % (ax, st), lambda z, ax=ax, st=st: anp.rollaxis(z, ax, st), t3)
     for order in ("C", "F", "A"):
         ror("reshape(rect,(3,2),order=%s)" % order, lambda z, order=order: anp.reshape(z, (3, 2), order=order), rect)
         ror("ravel(rect,order=%s)" % order, lambda z, order=order: anp.ravel(z, order=order), rect)
